@@ -4,7 +4,7 @@ from kv import Case, xn, xb, xl, xlist, xopt, xbool
 
 ID = "C07"
 MODULE = "C07"
-IMPORTS = "Bytes RustInt Http1Read Http1ReadProofs Http1ReadParseProofs"
+IMPORTS = "Bytes RustInt Http1Read Http1ReadProofs Http1ReadParseProofs Http1ReadLocalProofs Http1ReadLfProofs"
 PROFILES = ("dev", "nochk")
 KERNEL_SAMPLE = 30
 THEOREMS = []   # filled in below (kept at the end of the file for readability)
@@ -162,6 +162,17 @@ def generate(rng, tier):
             d = rng.randrange(c + 1, len(s))
             cases.append(mkreq(s, [c, d - c, len(s) - d], "cut3", dh=dh, g=g))
         cases.append(mkreq(s, [1] * len(s), "cut1", dh=dh, g=g))
+
+    # ---- the same bytes with bare-LF line ends (the code accepts them): every cut position, segmentation-blind oracle
+    for g, tail in shorts[:5]:
+        s = print_head(*g) + tail
+        dh = None if any(n.lower() == b"host" for n, _, _ in g[3]) else b"default.host"
+        for v in (s.replace(b"\r\n", b"\n"), s.replace(b"\r\n", b"\n", 1), s.replace(b"\r\n\r\n", b"\n\r\n"), s.replace(b"\r\n\r\n", b"\r\n\n")):
+            if v == s:
+                continue
+            for c in range(1, len(v), 1 if not quick else 2):
+                cases.append(mkreq(v, [c, len(v) - c], "cut-lf", dh=dh))
+            cases.append(mkreq(v, [1] * len(v), "cut-lf", dh=dh))
 
     # ---- grammar requests with random multi-cut schedules ------------------------------------------------------------
     nrand = 500 if quick else 30000
@@ -377,11 +388,14 @@ def spec_ok(c, i, s):
     if c.comp == "h1.request":
         xs = kv.xparse(s)
         xi = kv.xparse(i)
-        want = xs[1][1][1]                   # fields + body outcome
+        want = xs[1][1][1]                   # fields + body outcome + head end
         if xi[1][0] != ("N", 0):
             return False
         got = xi[1][1][1]
-        return got[0:6] + [got[7]] == want
+        k = want[7][1]
+        stream = c.x[1][4][1]
+        early = got[6][1]
+        return got[0:6] + [got[7]] == want[0:7] and early == stream[k:k + len(early)]
     return i == s
 
 
@@ -395,8 +409,26 @@ def classify(c, i):
 
 
 def directed(rng, mismatches):
-    # more of everything around the constants of the reader, with the specification as oracle
-    return generate(rng, "quick")
+    """after a broken proof / correspondence: short requests x every cut, every burst size around the limit, bare-LF variants"""
+    cases = []
+    g = (b"POST", b"/d?q", True, [hline(b"Host", 0, b"h"), hline(b"Content-Length", 2, b"4"), hline(b"X", 1, b"")])
+    s = print_head(*g) + b"bodyNEXT"
+    for a in range(1, len(s)):
+        for b in range(a + 1, len(s), 3):
+            cases.append(mkreq(s, [a, b - a, len(s)], "directed-cut", g=g))
+    for variant in (s.replace(b"\r\n", b"\n"), s.replace(b"\r\n", b"\n", 1), s.replace(b": ", b":"), s.replace(b"\r\n\r\n", b"\n\r\n")):
+        for a in range(1, len(variant)):
+            cases.append(mkreq(variant, [a, len(variant)], "directed-variant"))
+    junk = b"GET / HTTP/1.1\r\nHost: a\r\nx: " + b"a" * 40000
+    for t in range(16000, 16390, 7):
+        cases.append(mkreq(junk, [t, 100000, 100000, 100000], "directed-limit"))
+        hl = padded_head(b"GET", b"/t", [hline(b"Host", 1, b"a")], t)
+        gg = (b"GET", b"/t", True, hl)
+        cases.append(mkreq(print_head(*gg) + b"zz", [t - 3, 100000], "directed-limit", g=gg))
+    for cl in range(0, 70):
+        for el in (0, cl // 2, cl):
+            cases.append(mkbody(body_bytes(el), cl, BIG_LIMIT, body_bytes(cl + 40)[el:], [max(1, cl - el - 30), 30, 1000], "directed-body"))
+    return cases + generate(rng, "quick")
 
 
 def describe(c):
@@ -411,13 +443,18 @@ RULE = ("scripted AsyncRead (delivers the stream in the burst sizes of a schedul
         "kvarn_async::read::request and kvarn::application::Http1Body::read_to_bytes, plus kvarn_utils::parse::headers directly, in the debug and the "
         "overflow-unchecked build; compared with the extracted Coq model (correspondence: method, path, query, version, sorted header list, authority, "
         "early body bytes, body outcome, bytes taken from the connection, or the error class) and with the executable specification (oracle: for a "
-        "request printed from the grammar the fields and the body must be exactly the printed ones; no blank line within min(16 KiB, delivered bytes) "
-        "=> error; never a panic). Generators: grammar requests x every cut position (2 and 3 pieces, byte-by-byte) for short messages, random "
+        "request printed from the grammar the fields and the body must be exactly the printed ones (expect); for every other stream the fields, the "
+        "body outcome or the error class must be serve_spec of the delivered bytes, a function without schedule (theorem segmentation_blind); the "
+        "early body bytes must be the bytes of the stream right after the head; no blank line within min(16 KiB, delivered bytes) => error; never a "
+        "panic). Generators: the short messages also with bare-LF line ends in four mixes x every cut position; grammar requests x every cut position (2 and 3 pieces, byte-by-byte) for short messages, random "
         "multi-cut schedules, heads of size 511..16385 with bursts that land the buffer on the capacity thresholds, other head limits, "
         "content-length {0,1,31,32,33,100,5000} x trailing pipelined request x caller limits x early/late splits, truncated heads and bodies "
         "(EOF / error / stall), 100 hand-written malformed heads, random mutations, Host values and targets the http crate refuses, "
         "bounded-exhaustive header blocks over {a : SP CR LF}. distinct_nontrivial counts distinct (component, input, model outcome prefix) triples")
 ASSUMPTIONS = [
+    "read schedule = list of burst sizes; each read returns min(burst, window, bytes left) bytes; the exact theorems (parse_print*, "
+    "schedule_independent*, segmentation_blind, body_*) take schedules of non-empty bursts (sched_pos: a 0-byte read is how a peer says EOF, "
+    "modelled by the end mode), head_limit / stalled_head hold for every schedule",
     "BytesMut::reserve, when it reallocates, yields a capacity >= len + additional (theorems hold for every such growth function; the "
     "correspondence instantiates it with Vec's amortised doubling max(2*cap, len+additional, 8))",
     "http 1.5.0: Method::from_bytes, HeaderName::from_bytes, HeaderValue::from_maybe_shared/to_str, Uri::from_maybe_shared (scheme http/https, "
@@ -431,13 +468,29 @@ ASSUMPTIONS = [
 TRUSTED = ["modelled: async/src/lib.rs read_more/read_headers/contains_two_newlines/read::request, utils/src/parse.rs headers/version, "
            "utils/src/lib.rs valid_method/valid_version/get_body_length_request, src/application.rs Http1Body::read_to_bytes over "
            "async/src/lib.rs read_to_end_or_max and tokio's Take"]
-LEVEL_TEXT = ("Machine-checked Coq theorems over a byte-level model of the HTTP/1 request reader (read loop with buffer growth, request-line state "
-              "machine, header parser, URI assembly, body length, body reader) driven by an arbitrary read schedule: parse(print r) = r for the "
-              "request grammar for every schedule, growth function and trailing bytes; results independent of the schedule; no blank line within "
-              "the limit or the delivered bytes => error; no panic on any byte stream. The model is tied to the code on every run by a differential "
-              "run of the real functions over a scripted AsyncRead.")
-LEVEL_NOTE = ("Trusted: Coq kernel, extraction (reduced by the in-kernel recheck sample), the hand transcription validated by the differential run, "
-              "the http/bytes/tokio crates below the modelled functions. No axioms.")
+LEVEL_TEXT = ("Machine-checked Coq theorems (11, no axioms) over a byte-level executable model of the HTTP/1 request reader (read loop with "
+              "buffer growth through an arbitrary growth function, request-line state machine, header parser with its absolute indices, URI "
+              "assembly, body length, body reader) driven by an arbitrary read schedule (list of burst sizes). parse_print: for every request "
+              "of the grammar (token method of <= 7 letters, target without SP/CR/LF, HTTP/1.0|1.1, header lines name ':' SP^k value CRLF for "
+              "every k >= 0, names unique up to case, visible-ASCII values) followed by any bytes, every schedule delivering head + body, every "
+              "growth function and every end mode, the reader returns exactly method, path, query, version, header list, authority and the "
+              "first min(content-length, limit) bytes after the blank line. parse_print_head: the same for the parser alone, with the bytes "
+              "after the head returned unchanged. parse_print_lf / parse_print_head_lf: the same when the request line, any of the header "
+              "lines and the blank line end in a bare LF instead of CRLF (what the code accepts). schedule_independent: two schedules / "
+              "growth functions / end modes give the same request and body. segmentation_blind: for EVERY byte stream the observable result "
+              "(fields + body outcome, or the error class) equals serve_spec of the delivered bytes, a function without schedule or "
+              "capacities, so malformed heads too are read independently of the segmentation (schedule_independent_any_stream). head_limit / "
+              "stalled_head: no blank line within max_len (16384) bytes resp. within the delivered bytes => an error, for every schedule "
+              "incl. 0-byte reads and every growth function whatsoever. body_exact / body_any_schedule: read_to_bytes returns exactly "
+              "min(content-length, limit) bytes and leaves the rest of the stream (the next request) on the connection; short bodies end as "
+              "EOF-prefix / TimedOut / I/O error. All by induction over the stream / the schedule with invariants on the reader state, none "
+              "by enumeration. The model is tied to the code on every run by a differential run of the real functions over a scripted AsyncRead.")
+LEVEL_NOTE = ("Trusted: Coq kernel, extraction (reduced by the in-kernel recheck sample), the hand transcription of the anchored Rust functions as "
+              "validated by the differential run (exact equality incl. early bytes and bytes consumed), the http/bytes/tokio crates below the "
+              "modelled functions (http's Uri/HeaderName/HeaderValue/Method checks are transcribed, parse_print takes the Uri verdict as the "
+              "hypothesis expect .. = Some ..). Not covered: optional whitespace other than SP after the colon (a TAB stays in the value) and "
+              "trailing SP (kept in the value); requests whose names repeat; Http1Body as raw AsyncRead (only read_to_bytes). Seven defects were "
+              "found and repaired (fixed: lines in known-findings.txt); the theorems are about the repaired code.")
 TECHNIQUE = "Coq proof (model satisfies the specification for all requests, schedules and growth functions) + differential correspondence model vs. implementation"
 EXHAUSTIVE = False
 
@@ -448,8 +501,16 @@ THEOREMS = [
      r"forall grow mode https dh (max_len : nat) limit (g : greq) rest (sched : list nat) e, grow_ok grow -> sched_pos sched -> greq_ok g = true -> (length (print_head g) <= max_len)%nat -> expect https dh limit g rest = Some e -> (NEED <= length rest)%nat -> (length (print_head g) + NEED <= sum_sched sched)%nat -> exists sv, serve grow mode https dh max_len limit (print_head g ++ rest) sched = Ok sv /\ observed sv = Some e".replace("NEED", NEED)),
     ("parse_print_head",
      r"forall https dh (g : greq) extra host auth path query, greq_ok g = true -> g_host dh g = Some host -> parse_uri https host (g_target g) = Some (auth, path, query) -> parse_request https dh (print_head g ++ extra) = Ok (mk_request (g_method g) path query (if g_v11 g then 11 else 10) (g_hmap g) auth extra)"),
+    ("parse_print_lf",
+     r"forall grow mode https dh (max_len : nat) limit (l0 : bool) (fl : list bool) (lb : bool) (g : greq) rest (sched : list nat) e, grow_ok grow -> sched_pos sched -> greq_ok g = true -> (length (print_head_e l0 fl lb g) <= max_len)%nat -> expect https dh limit g rest = Some e -> (NEED <= length rest)%nat -> (length (print_head_e l0 fl lb g) + NEED <= sum_sched sched)%nat -> exists sv, serve grow mode https dh max_len limit (print_head_e l0 fl lb g ++ rest) sched = Ok sv /\ observed sv = Some e".replace("NEED", NEED)),
+    ("parse_print_head_lf",
+     r"forall https dh (l0 : bool) (fl : list bool) (lb : bool) (g : greq) extra host auth path query, greq_ok g = true -> g_host dh g = Some host -> parse_uri https host (g_target g) = Some (auth, path, query) -> parse_request https dh (print_head_e l0 fl lb g ++ extra) = Ok (mk_request (g_method g) path query (if g_v11 g then 11 else 10) (g_hmap g) auth extra)"),
     ("schedule_independent",
      r"forall grow1 grow2 mode1 mode2 https dh (max_len : nat) limit (g : greq) rest (sched1 sched2 : list nat), grow_ok grow1 -> grow_ok grow2 -> sched_pos sched1 -> sched_pos sched2 -> greq_ok g = true -> (length (print_head g) <= max_len)%nat -> expect https dh limit g rest <> None -> (NEED <= length rest)%nat -> (length (print_head g) + NEED <= sum_sched sched1)%nat -> (length (print_head g) + NEED <= sum_sched sched2)%nat -> exists sv1 sv2, serve grow1 mode1 https dh max_len limit (print_head g ++ rest) sched1 = Ok sv1 /\ serve grow2 mode2 https dh max_len limit (print_head g ++ rest) sched2 = Ok sv2 /\ observed sv1 = observed sv2 /\ observed sv1 <> None".replace("NEED", NEED)),
+    ("segmentation_blind",
+     r"forall grow mode https dh (max_len : nat) limit stream (sched : list nat), grow_ok grow -> sched_pos sched -> result_view (serve grow mode https dh max_len limit stream sched) = serve_spec mode https dh max_len limit (firstn (sum_sched sched) stream)"),
+    ("schedule_independent_any_stream",
+     r"forall grow1 grow2 mode https dh (max_len : nat) limit stream (sched1 sched2 : list nat), grow_ok grow1 -> grow_ok grow2 -> sched_pos sched1 -> sched_pos sched2 -> firstn (sum_sched sched1) stream = firstn (sum_sched sched2) stream -> result_view (serve grow1 mode https dh max_len limit stream sched1) = result_view (serve grow2 mode https dh max_len limit stream sched2)"),
     ("head_limit",
      r"forall grow mode https dh (max_len : nat) limit stream (sched : list nat), contains_two_newlines (firstn max_len stream) = false -> exists e, serve grow mode https dh max_len limit stream sched = Err e /\ " + ERRS),
     ("stalled_head",
